@@ -223,6 +223,22 @@ Proof.
   rewrite <- map_map with (f := work) (g := Some). rewrite join_all_somes. now rewrite fold_work_map.
 Qed.
 
+(* closed form for ANY arithmetic (floats included): the partial dot products of the slices, each summed from
+   zero in index order, added from zero in spawn order -- a fixed reassociation of the sequential sum that
+   depends on (length, t) only *)
+Lemma fold_left_map_gen {X Y Z} (f : Z -> Y -> Z) (g : X -> Y) (l : list X) (z : Z) :
+  fold_left f (map g l) z = fold_left (fun a x => f a (g x)) l z.
+Proof. revert z; induction l as [|x t IH]; intros z; cbn; auto. Qed.
+
+Lemma pardot_closed_form_lemma t (v w : list T) : 1 <= t -> length v = length w ->
+  pardot t v w = Ok (fold_left (fun acc i => acc + dot_raw (slice_of v t i) (slice_of w t i)) (seq 0 t) zero).
+Proof.
+  intros Ht Hl. unfold pardot. rewrite Hl, Nat.eqb_refl.
+  destruct (Nat.eqb_spec t 0); [lia|].
+  rewrite jobs_ok by auto. cbn [bind]. f_equal.
+  rewrite fold_left_map_gen. reflexivity.
+Qed.
+
 End Jobs.
 
 (* ------------------------------------------------------------------ exactness over a ring *)
